@@ -24,6 +24,7 @@ type Env struct {
 	params    map[string]bool // names that are parameters (not results / lets)
 	prevVals  map[*ssa.Phi]Val // step clauses: header values of the loop's phis
 	prevState *State
+	strong    map[string]string // strong(name): "self" and function-typed parameters
 }
 
 func (fx *fnExec) baseEnv(cur *State) *Env {
@@ -538,6 +539,21 @@ func (fx *fnExec) evalCall(e *Expr, env *Env) TV {
 			return TV{Sc{"true", SBool}, tBool}
 		}
 		return TV{Sc{or(eq(a, "0"), app(">=", app("birth", a), env.old.now)), SBool}, tBool}
+	case "strong": // strong(self) / strong(<function parameter>): the function promises its strong(...) ==> clauses
+		n := e.Args[0].Name
+		if t, ok := env.strong[n]; ok {
+			return TV{Sc{t, SBool}, tBool}
+		}
+		if n == "self" {
+			if fx.c != nil && fx.c.Weak {
+				return TV{Sc{"false", SBool}, tBool}
+			}
+			return TV{Sc{"true", SBool}, tBool}
+		}
+		if fx.c == nil || fx.c.FParams[n] == "" {
+			panic(contractErr("strong(" + n + "): not a function parameter with a schema"))
+		}
+		return TV{Sc{fx.s.decl("strong!"+n, SBool), SBool}, tBool}
 	case "typeIs": // typeIs(x, "*pkg.T")
 		v := fx.eval(e.Args[0], env).V.(IfV)
 		tn := e.Args[1].Str
